@@ -65,6 +65,7 @@ type Opaque struct {
 	// calls records method names invoked on this object (metrics counters etc.)
 	calls map[string]int
 	count *Term // for counters: number of Inc()/Add calls, may be symbolic
+	children map[string]value // metric vectors: the child per label values
 }
 
 type unsafePtr struct{ p value }
